@@ -27,8 +27,17 @@ use swc_trace_macro::swc_trace;
 use thiserror::Error;
 use tracing::debug;
 
-static OPERATION_REGEX: Lazy<Regex> =
-    Lazy::new(|| Regex::new(r"\s*(entrypoint|field|pointer)\s*([^\.\s]+)\.([^\s\(]+)").unwrap());
+// This must accept exactly what the compiler's lexer accepts at the start of an iso literal
+// (see IsographLangTokenKind): names are [a-zA-Z_][a-zA-Z0-9_]*, and tokens may be separated
+// by [ \t\r\n\f\u{feff}], including around the dot. The name ends where the identifier ends,
+// e.g. in `entrypoint Query.Foo@lazyLoad`.
+static OPERATION_REGEX: Lazy<Regex> = Lazy::new(|| {
+    Regex::new(concat!(
+        r"^[ \t\r\n\f\x{feff}]*(entrypoint|field|pointer)[ \t\r\n\f\x{feff}]+([a-zA-Z_][a-zA-Z0-9_]*)",
+        r"[ \t\r\n\f\x{feff}]*\.[ \t\r\n\f\x{feff}]*([a-zA-Z_][a-zA-Z0-9_]*)"
+    ))
+    .unwrap()
+});
 
 #[derive(Deserialize)]
 #[serde(deny_unknown_fields)]
